@@ -98,6 +98,25 @@ func (r *Replayer) build(pkgDir string, instrumented bool) (string, error) {
 			ov["Replace"][virt] = p
 		}
 	}
+	// native-only import swaps (e.g. package os -> a shim that turns filesystem calls into crash points)
+	k2 := 0
+	for file, sw := range r.L.NativeImports {
+		var src []byte
+		if p, ok := ov["Replace"][file]; ok {
+			src, _ = os.ReadFile(p)
+		} else {
+			src, _ = os.ReadFile(file)
+		}
+		if src == nil {
+			continue
+		}
+		alias := filepath.Base(sw[0])
+		out := strings.Replace(string(src), "\""+sw[0]+"\"", alias+" \""+sw[1]+"\"", 1)
+		k2++
+		p := filepath.Join(wd, fmt.Sprintf("nimp_%d_%s", k2, filepath.Base(file)))
+		os.WriteFile(p, []byte(out), 0o644)
+		ov["Replace"][file] = p
+	}
 	ovPath := filepath.Join(wd, sanitize(key)+"_overlay.json")
 	b, _ := json.Marshal(ov)
 	os.WriteFile(ovPath, b, 0o644)
